@@ -174,7 +174,7 @@ def make_spec(case):
             pages.append(page)
         rgs.append({"num_rows": g["b"] - g["a"] + 1,
                     "columns": [{"path": ["x"], "codec": case["codec"], "dictionary": dictionary, "pages": pages,
-                                 "statistics": "auto" if case.get("stats") == "exact" else None}]})
+                                 "statistics": {"exact": "auto", "new": "auto-new"}.get(case.get("stats"))}]})
     if not rgs:
         rgs = []
     return {"created_by": "parquet-mr version 1.12.0 (build abc)" if case["creator"] == "other"
@@ -280,7 +280,36 @@ def replay_chunk(args):
                or str(col.dtype) in ("Int32", "Int64", "Int16", "Int8", "UInt8", "UInt32", "UInt64", "boolean", "str", "string"))
         if not okk and len(col):
             out["viol"].append((dict(sig, what="dtype of a different kind than the schema implies", got=str(col.dtype)), ci))
+            continue
+        if case.get("stats") in ("exact", "new") and case.get("read") != "categories":
+            # the statistics of a foreign file are decoded by the row-group pruner and by ParquetFile.statistics: a filter
+            # on a value that is there must not fail, and must not lose the rows that hold it (row-group granularity)
+            present = [g for g, k in zip(vals, case["cells"]) if k >= 0]
+            if present:
+                v0 = present[0]
+                n_want = sum(1 for g, k in zip(vals, case["cells"]) if k >= 0 and _same(g, v0))
+                try:
+                    pf2 = fp.ParquetFile(io.BytesIO(data))
+                    pf2.statistics
+                    sub = pf2.to_pandas(filters=[("x", "==", v0)])
+                    n_got = sum(1 for g in list(sub["x"]) if _same(g, v0))
+                    if n_got < n_want:
+                        out["viol"].append((dict(sig, what="filtered read of the file loses rows that hold the value asked for",
+                                                 stats=case["stats"]), ci))
+                except (TypeError, ValueError, NotImplementedError):
+                    out["unsupported_ok"] += 1       # a comparison the column's type does not support: refused with an error
+                except BaseException as e:  # noqa
+                    out["viol"].append((dict(sig, what="statistics of a valid file make a filtered read fail",
+                                             exc=type(e).__name__, stats=case["stats"]), ci))
     return out
+
+
+def _same(a, b):
+    try:
+        r = a == b
+        return bool(r) if not hasattr(r, "all") else bool(r.all())
+    except Exception:  # noqa
+        return False
 
 
 LATTICES = {
@@ -309,6 +338,10 @@ LATTICES = {
                                              RgSplits=1, PageSplits=1, Encodings="EncDict", DefRunStyles="RunsRle",
                                              IndexRunStyles="RunsAll", IndexWidthStyles="WidthsMinPlus", Codecs="CodecNone",
                                              CompressedFlags="FlagAbsent", Creators="CreatorsBoth", DictPads="PadsEdges"),
+    "H-statistics-old-and-new-style": dict(Kinds="KindsAll", RowCounts="Rows3", NullPats="PatsFew", Optionals="BoolBoth", RgSplits=2,
+                                           PageSplits=1, Encodings="EncPlain", DefRunStyles="RunsRle", IndexRunStyles="RunsRle",
+                                           IndexWidthStyles="WidthMin", Codecs="CodecNone", CompressedFlags="FlagAbsent",
+                                           Creators="CreatorOther", StatsChoices="StatsPresent"),
 }
 FULL = dict(Kinds="KindsAll", RowCounts="Rows6", NullPats="PatsAll", Optionals="BoolBoth", RgSplits=2, PageSplits=3,
             Encodings="EncAll", DefRunStyles="RunsAll", IndexRunStyles="RunsAll", IndexWidthStyles="WidthsAll",
